@@ -317,7 +317,8 @@ fn analysis_families(thorough: bool, with_pred: bool, f: &(dyn Fn(&Grammar, &mut
     }
     list.extend(parts_family(&ebnf_bound(4, 1, 3, false)));
     list.extend(parts_family(&ebnf_bound(5, 2, 2, false)));
-    names.push("PARTS(4,1,3) ∪ PARTS(5,2,2)".into());
+    list.extend(shared_part_family());
+    names.push("PARTS(4,1,3) ∪ PARTS(5,2,2) ∪ SHARED-PART".into());
     list.extend(choice_family(&ebnf_bound(if thorough { 4 } else { 3 }, 1, 2, false), 1));
     names.push("CHOICE".into());
     if with_pred {
